@@ -293,6 +293,21 @@ def gen(rng, idx, tier):
                 simple[0]["anchors"] = [{"name": "top", "x": 200, "y": 600}]
         lib = {"com.github.googlei18n.ufo2ft.filters": [
             {"name": "propagateAnchors", "pre": True}, {"name": "sortContours"}]}
+        if simple and rng.random() < 0.3:
+            # anchors that the writers turn into GDEF carets and cursive records, on glyphs that
+            # a filter of the user's moves: the tables must be built from the moved anchors
+            # whether or not the compile is in place
+            tgt = simple[-1]
+            tgt["anchors"] = [a for a in tgt["anchors"] if a["name"] in ("top", "bottom")] + [
+                {"name": "caret_1", "x": 210, "y": 0}, {"name": "vcaret_1", "x": 0, "y": 330},
+                {"name": "entry", "x": 15, "y": 40}, {"name": "exit", "x": 480, "y": 55}]
+            if len(simple) > 1:
+                simple[0]["anchors"] = [a for a in simple[0]["anchors"] if a["name"] == "top"] + [
+                    {"name": "entry", "x": 5, "y": 20}, {"name": "exit", "x": 390, "y": 25}]
+            lib["com.github.googlei18n.ufo2ft.filters"].append(
+                {"name": "transformations", "pre": rng.random() < 0.5,
+                 "kwargs": {"OffsetX": rng.choice([0, 30]), "OffsetY": rng.choice([70, -45])}})
+            lib["public.openTypeCategories"] = {tgt["name"]: "ligature"}
         if rng.random() < 0.25:
             # a curve conversion of the user's own that remembers what it did (in the glyph
             # set's lib - which, not being compiled in place, is not the caller's)
